@@ -304,21 +304,21 @@ where
     /// Read the 'card specific data' block.
     fn read_csd(&mut self) -> Result<Csd, Error> {
         match self.card_type {
-            Some(CardType::SD1) => {
-                let mut csd = CsdV1::new();
+            Some(_) => {
+                let mut data = [0u8; 16];
                 if self.card_command(CMD9, 0)? != 0 {
                     return Err(Error::RegisterReadError);
                 }
-                self.read_data(&mut csd.data)?;
-                Ok(Csd::V1(csd))
-            }
-            Some(CardType::SD2 | CardType::SDHC) => {
-                let mut csd = CsdV2::new();
-                if self.card_command(CMD9, 0)? != 0 {
-                    return Err(Error::RegisterReadError);
+                self.read_data(&mut data)?;
+                // The register itself says which layout it has (CSD_STRUCTURE,
+                // the top two bits): standard-capacity cards - version 1 *and*
+                // version 2 ones - have a version 1.0 register, only
+                // high-capacity cards a version 2.0 one.
+                if (data[0] >> 6) == 0 {
+                    Ok(Csd::V1(CsdV1 { data }))
+                } else {
+                    Ok(Csd::V2(CsdV2 { data }))
                 }
-                self.read_data(&mut csd.data)?;
-                Ok(Csd::V2(csd))
             }
             None => Err(Error::CardNotFound),
         }
